@@ -70,7 +70,7 @@ MCNext == \/ \E i \in 1..Len(Roots) : New(Roots[i]) /\ UNCHANGED steps
              /\ \E ps \in {AllPaths(cur)} : \E j \in 1..Len(ps) :
                   \E os \in {OpsOf(NodeAt(cur, ps[j], 1))} : \E i \in 1..Len(os) : Mut(ps[j], os[i])
              /\ steps' = steps + 1
-          \/ WriteObj /\ UNCHANGED steps
+          \/ nw <= steps /\ WriteObj /\ UNCHANGED steps       \* at most one write more than calls: bounded
           \/ Adopt /\ UNCHANGED steps
 
 MCSpec == MCInit /\ [][MCNext]_mcvars
